@@ -82,7 +82,7 @@ def _name_strings(mdl, es):
 
 def unit_ctor(args, prefix=(), max_depth=None):
     no, np_, nrows = args['no'], args['np'], args['nrows']
-    core.set_width(8)
+    core.set_width(10)
     harness.set_kernel_mode('contract')
     concepts = harness.load_concepts()
     oe, pe = _names(no, np_)
@@ -142,11 +142,26 @@ def unit_ctor(args, prefix=(), max_depth=None):
                     mdl = cx.check_fresh(z3.Not(faithful), want_model=True)
                     if mdl is not None:
                         out['cex'].append(case(mdl, 'accepted input is not reproduced by objects/properties/bools'))
+                    elif same:
+                        # what the caller does with a returned list must not change what the context reports later
+                        try:
+                            b.reverse()
+                            b.append(('junk',))
+                        except (AttributeError, TypeError):
+                            pass
+                        b2 = c.bools
+                        ok2 = len(b2) == no and all(len(r) == np_ for r in b2)
+                        again = z3.And(*[core.tob(b2[i][j]) == truth(cellv[i][j]) for i in range(no) for j in range(np_)]) \
+                            if ok2 else z3.BoolVal(False)
+                        out['queries'] += 1
+                        mdl = cx.check_fresh(z3.Not(again), want_model=True)
+                        if mdl is not None:
+                            out['cex'].append(case(mdl, 'bools differs after the caller modified an earlier bools result'))
             mdl = cx.check_fresh(want_model=True)
             if mdl is None:
                 out['inconclusive'] = ['vacuous path']
             else:
-                if not out['cex']:
+                if not out['cex'] and verdict == 'accepted':
                     out['witness'] = case(mdl, None)
                 out['sample'] = {'unit': args.get('_name'), 'row_lengths': list(pat), 'verdict_on_path': verdict,
                                  'an_input_on_this_path': {'objects': _name_strings(mdl, oe),
@@ -169,7 +184,7 @@ def unit_ctor(args, prefix=(), max_depth=None):
 
 def unit_fromdict(args, prefix=(), max_depth=None):
     no, np_ = args['no'], args['np']
-    core.set_width(8)
+    core.set_width(max(10, (np_ + 2) ** 2 + 4))
     harness.set_kernel_mode('contract')
     concepts = harness.load_concepts()
     oe, pe = _names(no, np_)
@@ -232,6 +247,12 @@ def unit_fromdict(args, prefix=(), max_depth=None):
                 for v in r:
                     cx.assume(v >= -1, v <= np_)
             rows = [[core.SymInt(v) for v in r] for r in idx]
+            # an earlier, valid, WIDER dict whose rows are all index sets of size <= 2 over a larger property list:
+            # whatever it leaves behind (caches keyed by rows ...) must not make a later ill-formed dict acceptable
+            wide = list(range(np_ + 2))
+            wrows = [[]] + [[i] for i in wide] + [[i, j] for i in wide for j in wide if i != j]
+            concepts.Context.fromdict({'objects': [f'w{k}' for k in range(len(wrows))],
+                                       'properties': [f'v{j}' for j in wide], 'context': wrows})
             d = build(objs, props, rows)
             allnames = oe + pe
             structural = var['drop'] is None and var['corrupt'] is None and var['lattice'] != 'empty' \
